@@ -442,6 +442,9 @@ def run_case(js, env_desc, rng, policy, reorder=False, max_rounds_slack=2):
             pass  # the cause was recorded by the monitor that aborted
         else:
             V.add("C03", f"controller-raises-{type(e).__name__}{rtag}", f"run raised {e!r:.200}\n{out['exc'][2][-700:]}")
+            # nothing failed in the (model) cluster and the run delivered nothing: that is also C01's "every requested dataset is
+            # delivered", as in the real-cluster slice
+            V.add("C01", f"run-raised-without-any-fault:{type(e).__name__}{rtag}", f"run raised {e!r:.200} although no task failed and no process died: no requested dataset was delivered")
     else:
         state = out["state"]
         if bridge.shutdowns != 1:
